@@ -39,6 +39,10 @@ type stack struct {
 	done     chan struct{}
 	model    shimmodel.State
 	fired    int      // faults fired so far
+	acted    []string // identities another client added to the underlying agent during the call in progress
+	// actMayPurge: in-memory certificates that an orphan / expiry purge may have dropped at some moment of a call
+	// during which another client changed the underlying agent (consumed by resync)
+	actMayPurge map[string]bool
 	firedLog []string // kinds
 	closed   bool     // a closing fault fired: the upstream connection is gone
 	lastReq  []byte   // the request the peer is answering
@@ -95,6 +99,20 @@ func newStack(p *SPlan, noUp bool, o *sim.Outcome) *stack {
 			if honestOK && !((kind == "list" || kind == "remove") && fault == refagent.FaultTruncBody) {
 				s.mustFail = kind + "/" + fault
 			}
+		}
+	}
+	s.peer.OnAct = func(what, kind string, idx int) {
+		// another client of the underlying agent adds an identity while a call of the shim is in flight (between
+		// two requests of that call, or before its only one)
+		for _, r := range s.upstreamRoles() {
+			if r == what {
+				return
+			}
+		}
+		if s.directAdd(what, o) {
+			s.acted = append(s.acted, what)
+			s.firedLog = append(s.firedLog, kind+"/act:"+what)
+			o.Fault("upstream_changed_by_another_client_during_a_call")
 		}
 	}
 	s.peer.OnSlow = func(kind string, secs int64) { o.Fault("upstream_slow_reply"); o.Probe("slow_reply/" + kind) }
@@ -166,7 +184,7 @@ func (s *stack) call(f func() error) (res stepRes) {
 		}()
 		res.err = f()
 	}()
-	res.faulted = s.fired > before
+	res.faulted = s.fired > before || len(s.acted) > 0 // (what another client did during the call relaxes the comparison like a fault)
 	res.mustFail = s.mustFail
 	return res
 }
@@ -319,6 +337,14 @@ func runHistory(p *SPlan, noUp bool, o *sim.Outcome, sigParts *[]string) []obsLi
 	c := s.cat
 	m := &s.model
 	lockedAtModel := func() bool { return m.Locked }
+	if len(s.acted) > 0 {
+		// another client added identities while the shim was being constructed: they are upstream identities like any
+		for _, r := range s.acted {
+			now := time.Now().Unix()
+			m.Add(c.ident(r, 0, now), now)
+		}
+		s.acted = nil
+	}
 	for i, st := range p.Steps {
 		now := time.Now().Unix()
 		tag := fmt.Sprintf("[%s] step %d %s %s", mode, i, st.Op, st.Role)
@@ -548,6 +574,38 @@ func runHistory(p *SPlan, noUp bool, o *sim.Outcome, sigParts *[]string) []obsLi
 			continue
 		}
 
+		if len(s.acted) > 0 {
+			// What another client added during the call is part of the upstream from then on - for the state before the
+			// call as well: the relaxed comparison below must not take it for damage. The call saw the upstream at
+			// some moment between "nothing added yet" and "all added": an in-memory certificate that a purge would
+			// drop at any of these moments may be gone afterwards.
+			s.actMayPurge = map[string]bool{}
+			note := func(stt shimmodel.State) {
+				pg := stt.Clone()
+				pg.Purge(now)
+				for _, mc := range stt.Mem {
+					if !pg.MemHas(mc.Blob) {
+						s.actMayPurge[mc.Blob] = true
+					}
+				}
+			}
+			note(pre)
+			for _, r := range s.acted {
+				for _, stt := range []*shimmodel.State{&pre, m} {
+					saveLocked, saveUp := stt.Locked, stt.UpLocked
+					stt.Locked, stt.UpLocked = false, false
+					stt.Add(c.ident(r, 0, now), now)
+					stt.Locked, stt.UpLocked = saveLocked, saveUp
+				}
+				note(pre)
+			}
+			if st.Op == "addhard" && !pre.MemHas(st.Role) && !m.MemHas(st.Role) {
+				// the certificate may have been accepted on the strength of what was added meanwhile (resync turns the
+				// entry into "maybe")
+				m.AddHard(c.ident(st.Role, 0, now), now)
+			}
+			s.acted = nil
+		}
 		// ---------- verdicts ----------
 		got := "ok"
 		if res.err != nil {
@@ -587,10 +645,10 @@ func runHistory(p *SPlan, noUp bool, o *sim.Outcome, sigParts *[]string) []obsLi
 					}
 					id := c.ident(e, 0, now)
 					if id.IsCert && shimmodel.Validity(id.VA, id.VB, now) == shimmodel.Invalid {
-						o.Fail("C07.listed_invalid", "listed_invalid_under_fault:"+c.certs[e].Window, i, "%s: the underlying agent failed a request of this call (%v), the call succeeded and lists certificate %s (window %s) outside its validity at simulated time +%ds", tag, s.firedLog, e, c.certs[e].Window, now-epoch)
+						o.Fail("C07.listed_invalid", "listed_invalid_under_fault:"+c.certs[e].Window, i, "%s: during this call the underlying agent failed a request or was changed by another client (%v); the call succeeded and lists certificate %s (window %s) outside its validity at simulated time +%ds", tag, s.firedLog, e, c.certs[e].Window, now-epoch)
 					}
 					if id.IsCert && s.model.NoUp && id.YSSHCA && !pre.MemHas(e) {
-						o.Fail("C09.hidden_listed", "hidden_listed_under_fault:"+c.certs[e].KeyID, i, "%s: the underlying agent failed a request of this call, the call succeeded and lists upstream YSSHCA certificate %s in no-upstream mode", tag, e)
+						o.Fail("C09.hidden_listed", "hidden_listed_under_fault:"+c.certs[e].KeyID, i, "%s: during this call the underlying agent failed a request or was changed by another client (%v); the call succeeded and lists upstream YSSHCA certificate %s in no-upstream mode", tag, s.firedLog, e)
 					}
 				}
 				o.Probe("listing_under_fault_discloses_nothing")
@@ -829,7 +887,7 @@ func (s *stack) resync(pre shimmodel.State, st SStep, o *sim.Outcome, i int, tag
 		if st.Op == "removeall" || (st.Op == "remove" && st.Role == mem[k].Blob) {
 			mem[k].State = shimmodel.Maybe
 		}
-		if !purged.MemHas(mem[k].Blob) {
+		if !purged.MemHas(mem[k].Blob) || s.actMayPurge[mem[k].Blob] {
 			// the faulted call may or may not have purged it already (it is purged at the next call at the latest)
 			mem[k].State = shimmodel.Maybe
 		}
@@ -844,6 +902,7 @@ func (s *stack) resync(pre shimmodel.State, st SStep, o *sim.Outcome, i int, tag
 		}
 	}
 	m.Mem = mem
+	s.actMayPurge = nil
 	sort.Slice(m.Mem, func(a, b int) bool { return m.Mem[a].Blob < m.Mem[b].Blob })
 	s.resyncUp(now)
 	switch {
